@@ -220,6 +220,28 @@ def judge(rep: Report, subj: Subject, cut: int, files, exported, err, detail):
         rep.feat("export_ended_with_error_" + err.split(":")[0])
 
 
+_JOB = None
+
+
+def _cut_job(job):
+    """one cut of the current image (module global `_JOB`, inherited by fork): the image's files are written to a
+    directory of their own with the cut file shortened, the real tool exports it (and, for the tie, lists it)."""
+    k, cut = job
+    subj, base, want_tie = _JOB
+    d = os.path.join(base, f"cut{k}")
+    os.makedirs(d, exist_ok=True)
+    for n, b in subj.files.items():
+        with open(os.path.join(d, n), "wb") as f:
+            f.write(b[:cut] if n == subj.cut_file else b)
+    main = os.path.join(d, subj.main)
+    files, exported, err = E.export_real(main)
+    res = ls = None
+    if want_tie:
+        res, _, _, _ = FA.export_str(main)
+        ls = FA.ls_str(main, "")
+    return files, exported, err, res, ls
+
+
 def run_subject(rep: Report, ctx, subj: Subject, cases, ncuts, tie: bool, tag: str):
     cuts = subj.cuts
     if len(cuts) > ncuts:
@@ -240,22 +262,34 @@ def run_subject(rep: Report, ctx, subj: Subject, cases, ncuts, tie: bool, tag: s
         for path, wav in files.items():
             w = E.wav_info(wav)
             subj.expected[path] = dict(subj.expected[path], pcm=w.get("pcm", b""), channels=w.get("channels"))
-        lines = []
-        for cut in picked:
-            whole = subj.files[subj.cut_file]
-            s.write(subj.cut_file, whole[:cut])
-            files, exported, err = E.export_real(main)
+        # the cuts of one image are independent: the real tool runs on them in forked workers, each on its own copy
+        # of the image's files; the model driver then reads the same cut files in one batch
+        global _JOB
+        whole = subj.files[subj.cut_file]
+        want_tie = bool(tie and ctx.model_available)
+        _JOB = (subj, s.dir, want_tie)
+        jobs = list(enumerate(picked))
+        if len(jobs) > 8:
+            import multiprocessing as mp
+
+            with mp.get_context("fork").Pool(min(14, os.cpu_count() or 2)) as pool:
+                results = pool.map(_cut_job, jobs, chunksize=1)
+        else:
+            results = [_cut_job(j) for j in jobs]
+        ops = []
+        for (k, cut), (files, exported, err, res, ls) in zip(jobs, results):
             rep.evaluations += 1
             rep.nontrivial.add((tag, cut))
             rep.feat("cuts_" + subj.kind)
             detail = {"image": tag, "kind": subj.kind, "cut": cut, "size": len(whole), "exported": exported[:12], "error": err}
             judge(rep, subj, cut, files, exported, err, detail)
-            if tie and ctx.model_available:
-                res, _, _, _ = FA.export_str(main)
-                ls = FA.ls_str(main, "")
-                out = run_driver([f"akai all {main} {FA.hxs('')}"], timeout=900)[0].split(" || ")
+            if want_tie:
+                ops.append((cut, res, ls, os.path.join(s.dir, f"cut{k}", subj.main)))
+        if ops:
+            outs = run_driver([f"akai all {m} {FA.hxs('')}" for _, _, _, m in ops], timeout=3600)
+            for (cut, res, ls, _), o in zip(ops, outs):
+                out = o.split(" || ")
                 cases.append((f"{subj.kind} [{tag} cut {cut}]", res, ls, out[0], out[1] if len(out) > 1 else out[0]))
-        s.write(subj.cut_file, subj.files[subj.cut_file])
 
 
 def run(ctx, rep: Report, deep: bool = False):
